@@ -7,7 +7,7 @@
 //! reply instant: |e(m_r)| <= |offset| + dispersion + delay/2 exactly on the reported values.
 
 use super::cfg::BCfg;
-use super::PHC_REFID;
+use super::phc_refid_of;
 use crate::models::{dyadic_of_f64, NS};
 use crate::util::Rng;
 use chrony_candm::common::{ChronyAddr, ChronyFloat};
@@ -46,6 +46,8 @@ pub enum PhcState {
     Present(i64),
     Missing,
     Garbage,
+    /// the path exists but cannot be read (it is a directory: EISDIR)
+    Unreadable,
 }
 
 #[derive(Clone, Debug)]
@@ -140,7 +142,7 @@ impl World {
             last_update_m: m0,
             ref_time_ns: 0,
             interval_s: 1.0,
-            ref_matches: cfg.phc == 1 || cfg.phc == 3,
+            ref_matches: cfg.phc == 1 || cfg.phc == 3 || cfg.phc == 4,
             pending_mode: Mode::Sync,
             polls: Vec::new(),
             phc_path: sandbox.join("phc_error_bound"),
@@ -228,7 +230,7 @@ impl World {
         self.mode_end = at + dur;
         if mode == Mode::Sync {
             self.interval_s = *self.crng.pick(&[1.0f64, 2.0, 4.0, 16.0, 64.0, 1.5, 0.25]);
-            if self.cfg.phc == 1 || self.cfg.phc == 3 {
+            if self.cfg.phc == 1 || self.cfg.phc == 3 || self.cfg.phc == 4 {
                 self.ref_matches = self.crng.chance(80);
             } else {
                 self.ref_matches = false;
@@ -342,11 +344,26 @@ impl World {
                 5..=8 => PhcState::Missing,
                 _ => PhcState::Garbage,
             },
+            // a device that stays unreadable for long stretches
+            4 => {
+                if self.crng.chance(12) {
+                    PhcState::Present(self.crng.range(0, 50_000))
+                } else {
+                    PhcState::Unreadable
+                }
+            }
             _ => PhcState::NotRead,
         };
+        if st != PhcState::Unreadable && st != PhcState::NotRead && self.phc_path.is_dir() {
+            let _ = std::fs::remove_dir_all(&self.phc_path);
+        }
         match st {
             PhcState::Present(v) => {
                 let _ = std::fs::write(&self.phc_path, format!("{v}\n"));
+            }
+            PhcState::Unreadable => {
+                let _ = std::fs::remove_file(&self.phc_path);
+                let _ = std::fs::create_dir_all(&self.phc_path);
             }
             PhcState::Missing => {
                 let _ = std::fs::remove_file(&self.phc_path);
@@ -418,7 +435,8 @@ impl verif_rt::chrony::ChronySim for Chronyd {
         };
         // reference ids a real chronyd shows: the PHC refclock, the `local` pseudo-reference
         // (127.127.1.1), an NTP server's IPv4 address, zero while unsynchronised
-        let ref_id = if w.ref_matches { PHC_REFID } else { *fr.pick(&[0x7f000001u32, 0x7F7F0101, 0xA9FEA97B, 0, 0x47505300, 0x50484331]) };
+        let phc_refid = phc_refid_of(w.cfg.phc_name);
+        let ref_id = if w.ref_matches { phc_refid } else { *fr.pick(&[0x7f000001u32, 0x7F7F0101, 0xA9FEA97B, 0, 0x47505300, 0x50484331]) };
         // (the source address is sometimes the reference id itself, as for NTP sources)
         let ip = if fr.chance(25) { ChronyAddr::V4(std::net::Ipv4Addr::from(ref_id)) } else { ip };
         let junk = [fr.range(-1000, 1000) as f64 * 1e-6, fr.range(-50, 50) as f64, fr.range(0, 100) as f64 * 1e-3, fr.range(-500, 500) as f64 * 1e-9];
@@ -477,9 +495,13 @@ impl verif_rt::chrony::ChronySim for Chronyd {
                 }
                 if mode == Mode::FutureRef {
                     ref_ns = rt_now + *w.crng.pick(&[1i128, 1_000, 1_000_000_000, 10_000_000_000]);
+                    // (a reference time in the future is Unknown whatever the leap status says)
+                    if w.crng.chance(35) {
+                        leap = *w.crng.pick(&[3u16, 3, 4, 255]);
+                    }
                 }
                 let t = base(leap, ref_ns, off, delay, disp, interval, ref_id);
-                let phc = if ref_id == PHC_REFID && w.cfg.phc != 0 { w.write_phc() } else { PhcState::NotRead };
+                let phc = if ref_id == phc_refid_of(w.cfg.phc_name) && w.cfg.phc != 0 { w.write_phc() } else { PhcState::NotRead };
                 w.polls[idx].tracking = Some(info(&t, ref_ns));
                 w.polls[idx].phc = phc;
                 w.last_good_reply = Some(now);
@@ -489,7 +511,7 @@ impl verif_rt::chrony::ChronySim for Chronyd {
                 let (delay, disp) = if mode == Mode::Restarting { (1.0, 1.0) } else { (w.crng.range(1, 100) as f64 * 1e-4, w.crng.range(1, 100) as f64 * 1e-3) };
                 let ref_ns = if mode == Mode::Restarting { 0 } else { w.ref_time_ns };
                 let t = base(3, ref_ns, 0.0, delay, disp, w.interval_s, ref_id);
-                let phc = if ref_id == PHC_REFID && w.cfg.phc != 0 { w.write_phc() } else { PhcState::NotRead };
+                let phc = if ref_id == phc_refid_of(w.cfg.phc_name) && w.cfg.phc != 0 { w.write_phc() } else { PhcState::NotRead };
                 w.polls[idx].tracking = Some(info(&t, ref_ns));
                 w.polls[idx].phc = phc;
                 w.last_good_reply = Some(now);
